@@ -495,8 +495,8 @@ func (s *OperationProcessor) applyOperation(op *operation.AnchoredOperation,
 
 func sortOperations(ops []*operation.AnchoredOperation) {
 	sort.Slice(ops, func(i, j int) bool {
-		if ops[i].TransactionTime < ops[j].TransactionTime {
-			return true
+		if ops[i].TransactionTime != ops[j].TransactionTime {
+			return ops[i].TransactionTime < ops[j].TransactionTime
 		}
 
 		return ops[i].TransactionNumber < ops[j].TransactionNumber
